@@ -62,6 +62,7 @@ impl View for Fl { type V = real; uninterp spec fn view(&self) -> real; }
     w("pub uninterp spec fn is_positive_r(x: real) -> bool;\n")
     w("pub uninterp spec fn is_negative_r(x: real) -> bool;\n")
     w("pub uninterp spec fn eps_r() -> real;\n")
+    w("pub uninterp spec fn is_finite_r(x: real) -> bool;\n")
     w("pub uninterp spec fn floor_r(x: real) -> int;\n")
     w("#[verifier::inline] pub open spec fn is_int_r(x: real) -> bool { floor_r(x) as real == x }\n")
     w("// a / b with the value at a == 0 made explicit (so that an absent (= zero) part divided by a scalar is zero without arithmetic reasoning)\n")
@@ -73,6 +74,7 @@ impl View for Fl { type V = real; uninterp spec fn view(&self) -> real; }
     w("impl Clone for Sc { #[verifier::external_body] fn clone(&self) -> (r: Sc) ensures r@ == self@ { unimplemented!() } }\n")
     w("impl Clone for Fl { #[verifier::external_body] fn clone(&self) -> (r: Fl) ensures r@ == self@ { unimplemented!() } }\n")
     w("impl Copy for Fl {}\n")
+    w("impl Copy for Sc {}\n")
     for tr, sym in [("Add", "+"), ("Sub", "-"), ("Mul", "*"), ("Div", "/")]:
         w(binop(tr, "Sc", "Sc", sym))
         w(binop(tr, "Sc", "&'a Sc", sym, "<'a>"))
@@ -138,6 +140,9 @@ impl PartialOrd for Fl {
     w("  #[verifier::external_body] pub fn is_positive(&self) -> (r: bool) ensures r == is_positive_r(self@) { unimplemented!() }\n")
     w("  #[verifier::external_body] pub fn is_negative(&self) -> (r: bool) ensures r == is_negative_r(self@) { unimplemented!() }\n")
     w("  #[verifier::external_body] pub fn eq(&self, o: &Sc) -> (r: bool) ensures r == (self@ == o@) { unimplemented!() }\n")
+    w("  #[verifier::external_body] pub fn is_finite(&self) -> (r: bool) ensures r == is_finite_r(self@) { unimplemented!() }\n")
+    for c in CONSTS:
+        w(f"  #[verifier::external_body] pub fn {c}() -> (r: Sc) ensures r@ == c_{c}() {{ unimplemented!() }}\n")
     w("}\n")
     # ---- axioms on the uninterpreted real functions (each is an assumption; listed in the evidence)
     w("""
